@@ -61,14 +61,35 @@ def _key_is_full_address(ex, st, k):
            'addresses never share an entry')
 
 
+def _row_item(row, n, epochs):
+    """row[n] of an unknown row object, at any epoch seen so far"""
+    import z3
+    from pyvc.values import ObjSort
+    return [z3.Function('opaque_item_%s_%d' % (abs(hash(('i', n))), ep), ObjSort, ObjSort)(row.t) for ep in range(0, epochs + 1)]
+
+
 def _row_lookup(ex, st, k):
     import z3
-    from pyvc.values import VSeq
+    from pyvc.values import VSeq, VOpaque
     evs_ = st.trace[getattr(st, 'iter_start_trace', 0):]
+    row = st.env['row']
     gets = [e for e in evs_ if e.name == 'getitem' and isinstance(e.args[1], VSeq)]
     ok = len(gets) == 1 and gets[0].args[1].concrete and len(gets[0].args[1].items) == 3
-    yield ('row_matched_by_column_row_level', z3.BoolVal(bool(ok)),
-           'each result row is handed to the tile object found under a (column, row, level) key taken from the row')
+    goal = z3.BoolVal(bool(ok))
+    if ok:
+        # the key is (row[0], row[1], row[2]) = (tile_column, tile_row, zoom_level) in the order of the SELECT list
+        for n, it in enumerate(gets[0].args[1].items):
+            goal = z3.And(goal, z3.Or([it.t == r for r in _row_item(row, n, st.epoch)]) if isinstance(it, VOpaque) else z3.BoolVal(False))
+        # the bytes attached to THAT tile are row[3]
+        srcs = [e for e in evs_ if e.name == 'setattr:source']
+        blobs = [e for e in evs_ if e.name == 'BytesIO']
+        ok2 = len(srcs) == 1 and srcs[0].args[0] is gets[0].result and len(blobs) == 1 and isinstance(blobs[0].args[0], VOpaque)
+        goal = z3.And(goal, z3.BoolVal(bool(ok2)))
+        if ok2:
+            goal = z3.And(goal, z3.Or([blobs[0].args[0].t == r for r in _row_item(row, 3, st.epoch)]))
+    yield ('row_matched_by_column_row_level', goal,
+           'each result row is handed to the tile object found under the key (row[0], row[1], row[2]) - column, row, level as '
+           'selected - and that tile gets the bytes row[3]')
 
 
 for _k, _c in (('mapproxy.cache.mbtiles:', 'MBTilesCache'), ('mapproxy.cache.geopackage:', 'GeopackageCache')):
